@@ -4,7 +4,7 @@
 # every workload, and prints llvm-cov's per-file summary for the repository's sources.
 set -e
 mkdir -p /tmp/cov && cd /verif/harness
-CARGO_TARGET_DIR=/tmp/cov/target RUSTFLAGS="-Cinstrument-coverage --cfg hotstuff_verif" cargo +nightly build --release --offline
+LLVM_PROFILE_FILE=/tmp/cov/build-%p-%m.profraw CARGO_TARGET_DIR=/tmp/cov/target RUSTFLAGS="-Cinstrument-coverage --cfg hotstuff_verif" cargo +nightly build --release --offline
 cd /tmp/cov && rm -rf prof && mkdir prof
 B=/tmp/cov/target/release/hsv; export LLVM_PROFILE_FILE=/tmp/cov/prof/%p-%m.profraw
 for w in "cluster s2" "cluster s3" "cluster s4" "cluster s2b n=4 equal_stakes=1 timeout_ms=1000 hi_ms=30 duration_ms=60000" "byz s5" "byz s7" "byz s8" "puppet rand" "puppet d07 sync_retry_ms=1000" "puppet d13" "puppet d15" "puppet d18" "puppet d19" "puppet d20" "puppet d04" "hostile mixed bursts=5" "hostile bigtx bursts=1" "e2e s1" "e2e s10" "e2e s10b" "c04 x" "c09 x" "c11 x scenarios=10" "c12 x scenarios=10" "c14 enum" "c14 rand scenarios=20" "c16 st histories=10" "c16 mt histories=10" "c17 dist samples=500" "c18 sig keys=4" "c18 enc keys=10" "c19 x" "c20 x pairs=50"; do $B $w seed=7 count=4 > /dev/null 2>&1 & done; wait
